@@ -141,7 +141,7 @@ func vC12Parse(buf []byte, prec string) (pts []Point, err error, panicked bool) 
 func VerifHarness_C12_ParseNoPanic() {
 	maxN := 6
 	if vThorough() {
-		maxN = 8
+		maxN = 7
 	}
 	n := vLen("len", 0, maxN)
 	buf := vBytes("buf", n)
@@ -168,7 +168,7 @@ func VerifHarness_C12_ParseNoPanic() {
 func VerifHarness_C12_TextRoundTrip() {
 	maxN := 6
 	if vThorough() {
-		maxN = 8
+		maxN = 7
 	}
 	n := vLen("len", 3, maxN)
 	buf := vBytes("buf", n)
@@ -198,7 +198,7 @@ func VerifHarness_C12_TextRoundTrip() {
 func VerifHarness_C12_BinaryRoundTrip() {
 	maxN := 6
 	if vThorough() {
-		maxN = 8
+		maxN = 7
 	}
 	n := vLen("len", 3, maxN)
 	buf := vBytes("buf", n)
